@@ -131,11 +131,14 @@ pub fn exec(song: &mut Song, tokens: &Vec<Token>) -> bool {
                     }
                     Some(i) => i,
                 };
-                if it.index == (it.count - 1) {
+                if it.index + 1 >= it.count {
                     if it.end_pos == 0 {
+                        let mut depth = 0;
                         for i in pos..tokens.len() {
                             match &tokens[i].ttype {
+                                TokenType::LoopBegin => depth += 1,
                                 TokenType::LoopEnd => {
+                                    if depth > 0 { depth -= 1; continue; }
                                     it.end_pos = i + 1;
                                     break;
                                 }
